@@ -139,6 +139,7 @@ impl Monitor for C14 {
         if tier != Tier::Miri {
             s.push(exhaustive("c14-ladder", 24 * 17 * 3));
             s.push(exhaustive("v2-dense", spec::v2::dense_count()));
+            s.push(exhaustive("v2-sweep", spec::v2::sweep_count()));
         }
         if tier == Tier::Thorough {
             s.push(exhaustive("c14-all-lengths", 24 * 65536));
@@ -176,7 +177,11 @@ impl Monitor for C14 {
                 v2_case(stream, idx, seed, &mut b);
                 let h = hash_bytes(&b[..b.len().min(4096)]) ^ b.len() as u64;
                 let small = b.len() < 8192 || idx % 16 == 0;
-                judge(&b, rec, h, small);
+                if stream == "v2-dense" {
+                    spec::engine::placed(&b, idx / 3, |x| judge(x, rec, h, small));
+                } else {
+                    spec::sib::run_v2(&b, idx, 4, |x| judge(x, rec, if x == &b[..] { h } else { hash_bytes(x) }, small));
+                }
             }),
         }
     }
